@@ -6,14 +6,14 @@ VARIABLE h
 gvars == <<fvars, h>>
 GenInit == FInit /\ h = <<>>
 GenNext ==
-    \/ Boot /\ h' = Append(h, [ev |-> "Boot", dt |-> 0, t |-> ""])
-    \/ Tick /\ h' = Append(h, [ev |-> "Tick", dt |-> 0, t |-> ""])
-    \/ Dispatch /\ h' = Append(h, [ev |-> "Dispatch", dt |-> 0, t |-> ""])
-    \/ NewTarget /\ h' = Append(h, [ev |-> "NewTarget", dt |-> 0, t |-> ""])
-    \/ \E dt \in Jumps : Advance(dt) /\ h' = Append(h, [ev |-> "Advance", dt |-> dt, t |-> ""])
-    \/ \E x \in exec : Complete(x) /\ h' = Append(h, [ev |-> "Complete", dt |-> 0, t |-> x])
+    \/ Boot /\ h' = Append(h, [ev |-> "Boot", dt |-> 0, t |-> "", n |-> ""])
+    \/ Tick /\ h' = Append(h, [ev |-> "Tick", dt |-> 0, t |-> "", n |-> ""])
+    \/ Dispatch /\ h' = Append(h, [ev |-> "Dispatch", dt |-> 0, t |-> "", n |-> ""])
+    \/ NewTarget /\ h' = Append(h, [ev |-> "NewTarget", dt |-> 0, t |-> "", n |-> ""])
+    \/ \E dt \in Jumps : Advance(dt) /\ h' = Append(h, [ev |-> "Advance", dt |-> dt, t |-> "", n |-> ""])
+    \/ \E n \in Nodes : \E x \in exec[n] : Complete(n, x) /\ h' = Append(h, [ev |-> "Complete", dt |-> 0, t |-> x, n |-> n])
 GenSpec == GenInit /\ [][GenNext]_gvars
 View == fvars
-CfgJson == [kind |-> cfg.kind, events |-> cfg.events, start |-> cfg.start]
+CfgJson == [start |-> cfg.start, nodes |-> cfg.nodes]
 Emit == PrintT(<<"SCHED", ToJson([cfg |-> CfgJson, h |-> h'])>>)
 =============================================================================
